@@ -4,9 +4,11 @@ Property theorems about the model `RegexVerif.Model.Escape` (tied to syntax/esca
 syntax/parser.go by the regenerated `Generated.Escape` facts and by correspondence leg E).
 -/
 import RegexVerif.Lemmas.Escape
+import RegexVerif.Lemmas.EscapeParse
 
 namespace RegexVerif.Props.C19
 open RegexVerif RegexVerif.Escape RegexVerif.Lemmas.Escape
+open RegexVerif.EscapeParse RegexVerif.Lemmas.EscapeParse
 
 /-! ### obligations regenerated from the Go source (`Generated.Escape`) -/
 
@@ -49,5 +51,177 @@ example : ∀ c, Generated.metaChars.contains c = true → asciiWord c = false :
 example : unescape (fun c => decide (97 ≤ c ∧ c ≤ 122))
     (escape (fun c => decide (32 ≤ c ∧ c < 127)) [97, 46, 10, 0x378, 120, 0x10FFFF, 92]) =
     some [97, 46, 10, 0x378, 120, 0x10FFFF, 92] := by decide
+
+/-! ### the parser's reading of `Escape`'s output, per option set -/
+
+/-- The category sets written out in the parser model are the ones of parser.go: for every rune,
+    `isSpaceCh` = `isSpace` (`ch <= ' ' && _category[ch] == X`), `isSpecialCh` = `isSpecial`
+    (`ch <= '|' && _category[ch] >= S`), `isQuantCh` = `isQuantifier` (`ch <= '{' && _category[ch] >= Q`),
+    and under IgnorePatternWhitespace the only further stoppers (`isStopperX`: `>= X`) are the blanks and
+    `#`.  Re-checked against the `_category` table regenerated from parser.go on every run. -/
+theorem category_sets_match_table (ch : Nat) :
+    isSpaceCh ch = (decide (ch ≤ 32) && (Generated.parserCategory.getD ch 0 == Generated.catX)) ∧
+    isSpecialCh ch = (decide (ch ≤ 124) && decide (Generated.catS ≤ Generated.parserCategory.getD ch 0)) ∧
+    isQuantCh ch = (decide (ch ≤ 123) && decide (Generated.catQ ≤ Generated.parserCategory.getD ch 0)) ∧
+    (isSpaceCh ch || ch == 35 || isSpecialCh ch) =
+      (decide (ch ≤ 124) && decide (Generated.catX ≤ Generated.parserCategory.getD ch 0)) := by
+  have small : ∀ ch, ch < 128 →
+      isSpaceCh ch = (decide (ch ≤ 32) && (Generated.parserCategory.getD ch 0 == Generated.catX)) ∧
+      isSpecialCh ch = (decide (ch ≤ 124) && decide (Generated.catS ≤ Generated.parserCategory.getD ch 0)) ∧
+      isQuantCh ch = (decide (ch ≤ 123) && decide (Generated.catQ ≤ Generated.parserCategory.getD ch 0)) ∧
+      (isSpaceCh ch || ch == 35 || isSpecialCh ch) =
+        (decide (ch ≤ 124) && decide (Generated.catX ≤ Generated.parserCategory.getD ch 0)) := by
+    decide
+  by_cases h : ch < 128
+  · exact small ch h
+  · have h1 : ¬ ch ≤ 32 := by omega
+    have h2 : ¬ ch ≤ 124 := by omega
+    have h3 : ¬ ch ≤ 123 := by omega
+    have a : isSpaceCh ch = false := by simp [isSpaceCh]; omega
+    have b : isSpecialCh ch = false := by simp [isSpecialCh]; omega
+    have c : isQuantCh ch = false := by simp [isQuantCh]; omega
+    have d : (ch == 35) = false := by simp; omega
+    simp [a, b, c, d, h1, h2, h3]
+
+/-- **C19, "Escape yields a literal".** For every rune string `s` and every option set of the modelled
+    family — any combination of IgnorePatternWhitespace, ECMAScript, RE2 and Unicode (Multiline,
+    Singleline and ExplicitCapture do not touch the fragment; RightToLeft only reverses the concatenation
+    internally; IgnoreCase is excluded: it turns cased letters into sets) — the parser, reading the
+    pattern `Escape s` left to right as `scanRegex` does, meets nothing but literal runes, and the runes it
+    meets spell exactly `s`.  Consequence for the Go code: the tree built for `Escape s` is a
+    concatenation of One/Multi nodes spelling `s` (no quantifier, class, anchor, reference, group or
+    comment arises, no escape is malformed), so the compiled pattern is the literal string `s` and,
+    anchored at both ends, matches the text `s` and nothing else.
+
+    Hypotheses on the oracles: no rune of `meta` is a word character (`hW`, as for the round trip), and
+    the whitespace controls U+0009–U+000D are not printable (`hP`: were one printable, `escape` would
+    write it raw and IgnorePatternWhitespace would drop it).  Both hold for Go's `unicode.IsPrint` and
+    `syntax.IsWordChar`; leg E feeds the real tables. -/
+theorem escape_parses_as_literal (isPrint isWord : Nat → Bool)
+    (hW : ∀ c, Generated.metaChars.contains c = true → isWord c = false)
+    (hP : ∀ c, 9 ≤ c → c ≤ 13 → isPrint c = false)
+    (o : ParseOpts) (s : List Nat) :
+    parseLit o isWord (escape isPrint s) = some s := by
+  unfold parseLit parseWhy
+  rw [parseFuel_escape isPrint isWord hW hP o s [] _ (by have := escape_length isPrint s; omega)]
+  simp
+
+/-- The fuel of the parser model is never exhausted: `parseWhy` always answers with a literal or with
+    the reason why the pattern leaves the literal fragment (so `parseLit … = none` always has such a
+    reason). -/
+theorem parseWhy_fuel_sufficient (o : ParseOpts) (isWord : Nat → Bool) (pat : List Nat) :
+    parseWhy o isWord pat ≠ .outOfFuel :=
+  parseFuel_ne_outOfFuel o isWord _ pat [] (by omega)
+
+/-- The new model extends the old one: whenever the option-free parser reads a pattern as the
+    literal `t`, `Unescape` returns `t` for the same text.  (The converse fails, as it should: `Unescape`
+    also accepts `a.b`, `\x41+`, which are not literals.) -/
+theorem parseLit_sound_wrt_unescape (isWord : Nat → Bool) (p t : List Nat)
+    (h : parseLit {} isWord p = some t) : unescape isWord p = some t := by
+  unfold parseLit parseWhy at h
+  split at h
+  · rename_i t' heq
+    injection h with h; subst h
+    exact parseFuel_sound_unescape isWord _ p [] _ heq _ (by omega)
+  · cases h
+
+/-! #### non-vacuity, option sensitivity, and the seeded mutations as counter-models -/
+
+/-- printable ASCII as the printable-rune oracle of the examples (`hP` holds for it) -/
+def asciiPrint (c : Nat) : Bool := decide (32 ≤ c ∧ c < 127)
+
+example : ∀ c, 9 ≤ c → c ≤ 13 → asciiPrint c = false := by
+  intro c h1 h2; simp [asciiPrint]; omega
+
+def optsX : ParseOpts := { x := true }
+def optsEcma : ParseOpts := { ecma := true }
+def optsRe2 : ParseOpts := { re2 := true }
+def optsEcmaUX : ParseOpts := { ecma := true, u := true, x := true }
+
+/-- a string with metacharacters, blanks, `#`, every letter-escaped control, BEL, a `\xHH` control, a
+    non-printable BMP rune, `x`/`u`/digits right after them, a brace that looks like a repeat count, and a
+    non-printable astral rune -/
+def sample : List Nat :=
+  [97, 32, 35, 46, 9, 10, 11, 12, 13, 7, 27, 52, 49, 0x378, 102, 123, 50, 125, 120, 0xE0001, 92, 107]
+
+example : parseLit {} asciiWord (escape asciiPrint sample) = some sample := by decide
+example : parseLit optsX asciiWord (escape asciiPrint sample) = some sample := by decide
+example : parseLit optsEcma asciiWord (escape asciiPrint sample) = some sample := by decide
+example : parseLit optsRe2 asciiWord (escape asciiPrint sample) = some sample := by decide
+example : parseLit optsEcmaUX asciiWord (escape asciiPrint sample) = some sample := by decide
+
+/-- the model is sensitive to the options where the parser is: `\x{41}` is `A` by default and `x`
+    repeated 41 times under ECMAScript; `\x{f}` is U+000F by default and the text `x{f}` under
+    ECMAScript; `\_` is an error by default and `_` under RE2; `\k` is a reference by default and `k`
+    under ECMAScript; `\u{41}` is an escape only under ECMAScript+Unicode; `a b#c` loses its blank and
+    its comment under IgnorePatternWhitespace; `\a` is BEL under every option set. -/
+example : parseWhy {} asciiWord [92, 120, 123, 52, 49, 125] = .lit [65] := by decide
+example : parseWhy optsEcma asciiWord [92, 120, 123, 52, 49, 125] = .stop .construct := by decide
+example : parseWhy {} asciiWord [92, 120, 123, 102, 125] = .lit [15] := by decide
+example : parseWhy optsEcma asciiWord [92, 120, 123, 102, 125] = .lit [120, 123, 102, 125] := by decide
+example : parseWhy {} asciiWord [92, 95] = .stop .error := by decide
+example : parseWhy optsRe2 asciiWord [92, 95] = .lit [95] := by decide
+example : parseWhy {} asciiWord [92, 107] = .stop .error := by decide
+example : parseWhy optsEcma asciiWord [92, 107] = .lit [107] := by decide
+example : parseWhy {} asciiWord [92, 117, 123, 52, 49, 125] = .stop .error := by decide
+example : parseWhy optsEcma asciiWord [92, 117, 123, 52, 49, 125] = .stop .construct := by decide
+example : parseWhy optsEcmaUX asciiWord [92, 117, 123, 52, 49, 125] = .lit [65] := by decide
+example : parseWhy {} asciiWord [97, 32, 98, 35, 99] = .lit [97, 32, 98, 35, 99] := by decide
+example : parseWhy optsX asciiWord [97, 32, 98, 35, 99] = .lit [97, 98] := by decide
+example : parseWhy {} asciiWord [97, 46] = .stop .nonlit := by decide
+example : parseWhy {} asciiWord [92, 100] = .stop .nonlit := by decide
+example : parseWhy {} asciiWord [97, 123, 50, 125] = .stop .construct := by decide
+example : parseWhy {} asciiWord [97, 123, 50, 120] = .lit [97, 123, 50, 120] := by decide
+
+/-- `parseLit_sound_wrt_unescape` is not vacuous, and its converse fails -/
+example : parseLit {} asciiWord [92, 120, 52, 49, 92, 46, 98] = some [65, 46, 98] := by decide
+example : unescape asciiWord [97, 46, 98] = some [97, 46, 98] ∧ parseLit {} asciiWord [97, 46, 98] = none := by
+  decide
+
+/-- hexadecimal digits of `n` without padding (`strconv.FormatInt(n, 16)`), for the mutants below -/
+def hexDigitsAux : Nat → Nat → List Nat → List Nat
+  | 0, _, acc => acc
+  | f + 1, n, acc => if n < 16 then hexChar n :: acc else hexDigitsAux f (n / 16) (hexChar (n % 16) :: acc)
+def hexDigits (n : Nat) : List Nat := hexDigitsAux 8 n []
+
+/-- **Seeded mutation C19-astral-xbrace as a counter-model.**  `escape` changed to write a
+    non-printable rune above U+FFFF as `\x{HHHHH}` instead of raw.  The mutant still round-trips and is
+    still a literal under the default, RE2 and IgnorePatternWhitespace options, but under ECMAScript
+    `\x{` is not an escape: the conclusion of `escape_parses_as_literal` fails (the text `x{e0001}` is
+    read instead, and for U+40000 the brace is a repeat count). -/
+def escapeRuneXBrace (isPrint : Nat → Bool) (r : Nat) : List Nat :=
+  if !isPrint r && decide (0xFFFF < r) then [bslash, 120, 123] ++ hexDigits r ++ [125] else escapeRune isPrint r
+def escapeXBrace (isPrint : Nat → Bool) (s : List Nat) : List Nat := s.flatMap (escapeRuneXBrace isPrint)
+
+example : escapeXBrace asciiPrint [116, 0xE0001] = [116, 92, 120, 123, 101, 48, 48, 48, 49, 125] := by decide
+example : unescape asciiWord (escapeXBrace asciiPrint [116, 0xE0001]) = some [116, 0xE0001] := by decide
+example : parseLit {} asciiWord (escapeXBrace asciiPrint [116, 0xE0001]) = some [116, 0xE0001] := by decide
+example : parseLit optsRe2 asciiWord (escapeXBrace asciiPrint [116, 0xE0001]) = some [116, 0xE0001] := by decide
+example : parseLit optsEcma asciiWord (escapeXBrace asciiPrint [116, 0xE0001]) ≠ some [116, 0xE0001] := by decide
+example : parseLit optsEcma asciiWord (escapeXBrace asciiPrint [116, 0xE0001]) =
+    some [116, 120, 123, 101, 48, 48, 48, 49, 125] := by decide
+example : parseWhy optsEcma asciiWord (escapeXBrace asciiPrint [0x40000]) = .stop .construct := by decide
+
+/-- **Seeded mutation C19b-ecma-bel.**  There the *parser* was changed (under ECMAScript `\a` and `\e`
+    read as the letters).  The model pins the reading of the unchanged parser — BEL and ESC under every
+    option set — so leg E reports the changed parser as a correspondence break (and, model-free, as an
+    impl-violation).  The same defect seen from `escape`'s side: a variant that writes BEL as an escape
+    ECMAScript does not have (`\x{7}`) is rejected by the theorem's conclusion in the same way. -/
+example : parseLit optsEcma asciiWord [92, 97] = some [7] ∧ parseLit optsEcma asciiWord [92, 101] = some [27] ∧
+    parseLit {} asciiWord [92, 97] = some [7] ∧ parseLit optsRe2 asciiWord [92, 97] = some [7] := by decide
+example : parseLit {} asciiWord [92, 120, 123, 55, 125] = some [7] ∧
+    parseLit optsEcma asciiWord [92, 120, 123, 55, 125] ≠ some [7] := by decide
+
+/-- **Reverted fix 9e58dca as a counter-model.**  `escape` writing `\u` with unpadded hex: for U+0378
+    followed by `x` the parser finds too few hex digits (an error by default; the letter `u` under
+    ECMAScript) — either way not the literal. -/
+def escapeRuneUnpadded (isPrint : Nat → Bool) (r : Nat) : List Nat :=
+  if !isPrint r && decide (0x100 ≤ r) then [bslash, 117] ++ hexDigits r else escapeRune isPrint r
+def escapeUnpadded (isPrint : Nat → Bool) (s : List Nat) : List Nat := s.flatMap (escapeRuneUnpadded isPrint)
+
+example : parseWhy {} asciiWord (escapeUnpadded asciiPrint [0x378, 120]) = .stop .error := by decide
+example : parseLit optsEcma asciiWord (escapeUnpadded asciiPrint [0x378, 120]) = some [117, 51, 55, 56, 120] := by
+  decide
+example : parseLit {} asciiWord (escapeUnpadded asciiPrint [0x378, 97]) = some [0x378a] := by decide
 
 end RegexVerif.Props.C19
